@@ -142,10 +142,11 @@ class PathLimit(Exception):
 
 class Engine:
     def __init__(self, facts, opaque=(), inline_filter=None, max_paths=4096, max_depth=8, models=None,
-                 log_enter=False, pure=(), fold_only=None, inline_loops=(), readonly=(), iter_adapters=True, unroll=False):
+                 log_enter=False, pure=(), fold_only=None, inline_loops=(), readonly=(), iter_adapters=True, unroll=False, concrete=False):
         self.facts = facts
         self.iter_adapters = iter_adapters     # interpret closure-taking iterator adapters as one arbitrary loop iteration
         self.unroll = unroll                   # walk loops over literal arrays element by element instead of abstracting them
+        self.concrete = concrete               # constant arguments: loops are walked iteration by iteration with their constant values (bounded)
         self.conts = {}
         self.cont_id = itertools.count(1)
         self.opaque = set(opaque)
@@ -208,6 +209,13 @@ class Engine:
             n = st.unrolled.get((fid, bb), 0)
             if n > 16:
                 return [Outcome('limit', None, st, where=(fn.name, 'unroll bound'))]
+            st.unrolled[(fid, bb)] = n + 1
+            st.visited[fid] -= cfg.loops[bb]
+        elif bb in cfg.loops and self.concrete:
+            # partial evaluation on constant inputs: no abstraction of the loop, the walk simply goes round (bounded)
+            n = st.unrolled.get((fid, bb), 0)
+            if n > 600:
+                return [Outcome('limit', None, st, where=(fn.name, 'iteration bound'))]
             st.unrolled[(fid, bb)] = n + 1
             st.visited[fid] -= cfg.loops[bb]
         elif bb in cfg.loops:
@@ -616,7 +624,10 @@ class Engine:
         if base == 'into_iter' and len(args) == 1:
             a = args[0]
             by_ref = False
-            while a[0] in ('ref', 'K', 'der'):
+            while a[0] in ('ref', 'K', 'der', 'named'):
+                if a[0] == 'named':
+                    a = NAMED_CONSTS.get(a[1], ('unk',))
+                    continue
                 by_ref = by_ref or a[0] == 'ref'
                 a = self._read_lv(st, a[1]) if (a[0] == 'ref' and a[1][0] == 'L') else a[1]
             if a[0] == 'agg' and a[1] == 'array' and 0 < len(a[4]) <= 8:
@@ -1008,7 +1019,7 @@ class Engine:
             return False      # recursion (also through a closure of the analysed function) is never unfolded
         if self.inline_filter is not None and not self.inline_filter(name, callee):
             return False
-        if callee.cfg.has_loops() and name not in self.inline_loops:
+        if callee.cfg.has_loops() and name not in self.inline_loops and not self.concrete:
             return False
         return True
 
@@ -1703,6 +1714,9 @@ def m_int_method(opname):
             if v == 0:
                 return [(st, C(INT_BITS.get(ty, 64)))]
             return [(st, C((v & -v).bit_length() - 1))]
+        if opname == 'leading_zeros' and is_const(a) and isinstance(a[1], int):
+            w = INT_BITS.get(ty, 64)
+            return [(st, C(w - (a[1] & ((1 << w) - 1)).bit_length()))]
         if opname == 'count_ones' and is_const(a) and isinstance(a[1], int):
             return [(st, C(bin(a[1] & ((1 << INT_BITS.get(ty, 64)) - 1)).count('1')))]
         if opname.startswith('wrapping_') and len(args) == 2:
@@ -1976,6 +1990,7 @@ PATTERN_MODELS = [
     (re.compile(r'^core::num::<impl u8>::to_ascii_uppercase$'), m_ascii_case(False)),
     (re.compile(r'^core::num::<impl \w+>::trailing_zeros$'), m_int_method('trailing_zeros')),
     (re.compile(r'^core::num::<impl \w+>::count_ones$'), m_int_method('count_ones')),
+    (re.compile(r'^core::num::<impl \w+>::leading_zeros$'), m_int_method('leading_zeros')),
     (re.compile(r'^core::num::<impl \w+>::wrapping_add$'), m_int_method('wrapping_add')),
     (re.compile(r'^core::num::<impl \w+>::wrapping_sub$'), m_int_method('wrapping_sub')),
     (re.compile(r'^core::num::<impl \w+>::wrapping_mul$'), m_int_method('wrapping_mul')),
